@@ -76,6 +76,12 @@ def reset(values=None):
     return CTX
 
 
+def _num(o, what):
+    if isinstance(o, (FBase, Tensor)):
+        raise RtError("%s expects a value, got %s" % (what, type(o).__name__))
+    return o
+
+
 def val(x):
     return x.v if isinstance(x, Payload) else x
 
@@ -87,23 +93,23 @@ class Payload:
         self.v = v
 
     def __iadd__(self, o):
-        self.v += val(o)
+        self.v += val(_num(o, "payload += x"))
         CTX.updates += 1
         CTX.event("update", "+=")
         return self
 
     def __ilshift__(self, o):
-        self.v = val(o)
+        self.v = val(_num(o, "payload <<= x"))
         CTX.updates += 1
         CTX.event("update", "<<=")
         return self
 
     def __mul__(self, o):
-        return val(self) * val(o)
+        return val(self) * val(_num(o, "payload * x"))
     __rmul__ = __mul__
 
     def __add__(self, o):
-        return val(self) + val(o)
+        return val(self) + val(_num(o, "payload + x"))
     __radd__ = __add__
 
     def __sub__(self, o):
@@ -125,14 +131,33 @@ class Payload:
         return "P(%r)" % (self.v,)
 
 
+def _need_fiber(x, what):
+    """API misuse the real fibertree would not survive either: the emitted program handed a payload (or
+    anything else) where a fiber is required.  Reported as a fault of the program, not of this model."""
+    if not isinstance(x, FBase):
+        raise RtError("%s expects a fiber, got %s" % (what, type(x).__name__))
+    return x
+
+
 class FBase:
     """Anything iterable as (coord, payload) pairs in increasing coord order."""
 
     def __and__(a, b):
+        _need_fiber(b, "fiber & x")
         return Lazy(lambda: _and(a, b), lambda: (a.default(), b.default()))
 
+    def __rand__(b, a):
+        _need_fiber(a, "x & fiber")
+
     def __or__(a, b):
+        _need_fiber(b, "fiber | x")
         return Lazy(lambda: _or(a, b), lambda: ("", a.default(), b.default()))
+
+    def __ror__(b, a):
+        _need_fiber(a, "x | fiber")
+
+    def __rlshift__(b, a):
+        _need_fiber(a, "x << fiber")
 
     def __iter__(self):
         ctx = CTX
@@ -178,6 +203,27 @@ def _ckey(c):
     return c
 
 
+def _bisect(coords, c):
+    try:
+        return bisect.bisect_left(coords, c)
+    except TypeError as e:
+        raise RtError("look-up with a coordinate of another kind than the fiber's: %s" % e)
+
+
+def _cmp_guard(fn):
+    """comparing coordinates of different kinds (a flattened tuple against an integer) is a fault of the
+    program that paired the two fibers, not of this model"""
+    def wrapped(a, b):
+        try:
+            for item in fn(a, b):
+                yield item
+        except TypeError as e:
+            if "not supported between" in str(e):
+                raise RtError("coordinates of different kinds are compared: %s" % e)
+            raise
+    return wrapped
+
+
 def _and(a, b):
     ia, ib = a._items(), b._items()
     ea = next(ia, None)
@@ -208,6 +254,10 @@ def _or(a, b):
             yield ea[0], ("AB", ea[1], eb[1])
             ea = next(ia, None)
             eb = next(ib, None)
+
+
+_and = _cmp_guard(_and)
+_or = _cmp_guard(_or)
 
 
 class Lazy(FBase):
@@ -247,9 +297,11 @@ class Fiber(FBase):
     def getPayloadRef(self, *cs, trace=None):
         f = self
         for c in cs:
+            if isinstance(f, Payload):
+                raise RtError("getPayloadRef past a leaf")
             if type(c) is not int:
                 c = norm_coord(c)     # 1.0 (from a rational projection) and 1 are the same coordinate
-            i = bisect.bisect_left(f.coords, c)
+            i = _bisect(f.coords, c)
             if i < len(f.coords) and f.coords[i] == c:
                 f = f.payloads[i]
             else:
@@ -269,7 +321,7 @@ class Fiber(FBase):
                 raise RtError("getPayload past a leaf")
             if type(c) is not int:
                 c = norm_coord(c)
-            i = bisect.bisect_left(f.coords, c)
+            i = _bisect(f.coords, c)
             if i < len(f.coords) and f.coords[i] == c:
                 f = f.payloads[i]
             else:
@@ -281,6 +333,8 @@ class Fiber(FBase):
         return f
 
     def __lshift__(z, b):
+        _need_fiber(b, "fiber << x")
+
         def gen():
             for c, pb in b._items():
                 yield c, (z.getPayloadRef(c), pb)
@@ -305,6 +359,8 @@ class Fiber(FBase):
     @staticmethod
     def intersection(*fibers, style=None):
         CTX.probe("Fiber.intersection")
+        for f in fibers:
+            _need_fiber(f, "Fiber.intersection")
         r = fibers[-1]
         for f in reversed(fibers[:-1]):
             r = f & r
